@@ -427,6 +427,112 @@ impl Ord for Tracked {
     }
 }
 
+// ---------------------------------------------------------------------------
+// Element lifecycle monitor: an element type that is neither Copy nor trivially droppable.  Every value carries
+// a unique id registered in a thread-local table of live values; `clone` registers a new id, `drop` removes its
+// id.  A drop of an id that is not live (an element bitwise-duplicated and dropped twice), a clone or a
+// comparison that touches a dead id (use after drop) is recorded as a lifecycle fault.  The element owns no heap
+// memory, so observing such a fault is itself free of undefined behaviour.
+// ---------------------------------------------------------------------------
+thread_local! {
+    static LIFE_LIVE: RefCell<std::collections::HashSet<u64>> = RefCell::new(std::collections::HashSet::new());
+    static LIFE_NEXT: Cell<u64> = const { Cell::new(1) };
+    static LIFE_FAULT: RefCell<Option<String>> = const { RefCell::new(None) };
+    static LIFE_EVENTS: Cell<u64> = const { Cell::new(0) };
+}
+#[derive(Debug)]
+pub struct Res {
+    pub key: i64,
+    id: u64,
+}
+fn life_fault_set(m: String) {
+    LIFE_FAULT.with(|f| {
+        let mut f = f.borrow_mut();
+        if f.is_none() {
+            *f = Some(m);
+        }
+    });
+}
+fn life_check(id: u64, key: i64, what: &str) {
+    LIFE_EVENTS.with(|e| e.set(e.get() + 1));
+    if !LIFE_LIVE.with(|l| l.borrow().contains(&id)) {
+        life_fault_set(format!("{} of an element that is not alive (id {}, key {}): it was dropped before", what, id, key));
+    }
+}
+impl Res {
+    pub fn new(key: i64) -> Res {
+        let id = LIFE_NEXT.with(|n| {
+            let v = n.get();
+            n.set(v + 1);
+            v
+        });
+        LIFE_LIVE.with(|l| l.borrow_mut().insert(id));
+        Res { key, id }
+    }
+}
+impl Clone for Res {
+    fn clone(&self) -> Res {
+        life_check(self.id, self.key, "clone");
+        Res::new(self.key)
+    }
+}
+impl Drop for Res {
+    fn drop(&mut self) {
+        LIFE_EVENTS.with(|e| e.set(e.get() + 1));
+        if !LIFE_LIVE.with(|l| l.borrow_mut().remove(&self.id)) {
+            life_fault_set(format!("an element was dropped twice (id {}, key {})", self.id, self.key));
+        }
+    }
+}
+impl PartialEq for Res {
+    fn eq(&self, o: &Self) -> bool {
+        step();
+        life_check(self.id, self.key, "comparison");
+        life_check(o.id, o.key, "comparison");
+        self.key == o.key
+    }
+}
+impl Eq for Res {}
+impl PartialOrd for Res {
+    fn partial_cmp(&self, o: &Self) -> Option<std::cmp::Ordering> {
+        Some(self.cmp(o))
+    }
+}
+impl Ord for Res {
+    fn cmp(&self, o: &Self) -> std::cmp::Ordering {
+        step();
+        life_check(self.id, self.key, "comparison");
+        life_check(o.id, o.key, "comparison");
+        self.key.cmp(&o.key)
+    }
+}
+impl Elem for Res {
+    fn bits(&self) -> (u8, u128) {
+        (0, self.key as u128)
+    }
+    fn guard(i: usize) -> Self {
+        Res::new(-1000 - i as i64)
+    }
+    fn show(&self) -> String {
+        format!("Res({})", self.key)
+    }
+    const NAME: &'static str = "Res";
+}
+/// forget everything the monitor knows (start of a case)
+pub fn life_reset() {
+    LIFE_LIVE.with(|l| l.borrow_mut().clear());
+    LIFE_FAULT.with(|f| *f.borrow_mut() = None);
+    LIFE_EVENTS.with(|e| e.set(0));
+}
+/// first lifecycle fault since the last reset
+pub fn life_fault() -> Option<String> {
+    LIFE_FAULT.with(|f| f.borrow().clone())
+}
+/// number of values alive right now, and number of lifecycle events (clone / drop / comparison) observed
+pub fn life_stats() -> (usize, u64) {
+    (LIFE_LIVE.with(|l| l.borrow().len()), LIFE_EVENTS.with(|e| e.get()))
+}
+
 /// Bit-level identity of an element (tag, payload) + guard values + display.
 pub trait Elem: Clone + 'static {
     fn bits(&self) -> (u8, u128);
